@@ -141,6 +141,10 @@ def parse (p : Str) : Parsed :=
   | .invalid => .invalid
   | .unsupported => .unsupported
 
+/-- does the class `[…]` / `[^…]` contain `c` -/
+def inItem (c : Char) (it : Char × Char) : Bool := it.1 ≤ c && c ≤ it.2
+def clsMatch (neg : Bool) (items : List (Char × Char)) (c : Char) : Bool := (items.any (inItem c)) != neg
+
 def dedupNat (l : List Nat) : List Nat := l.foldl (fun acc x => if acc.contains x then acc else acc ++ [x]) []
 
 /-- all end positions of matches of `r` starting at `pos` -/
@@ -150,11 +154,7 @@ def ends (inp : Array Char) : Nat → Rx → Nat → List Nat
   | _, .chr c, pos => if h : pos < inp.size then (if inp[pos] = c then [pos + 1] else []) else []
   | _, .any, pos => if h : pos < inp.size then (if inp[pos] ≠ '\n' then [pos + 1] else []) else []
   | _, .cls neg items, pos =>
-    if h : pos < inp.size then
-      let c := inp[pos]
-      let m := items.any fun (lo, hi) => lo ≤ c && c ≤ hi
-      if m != neg then [pos + 1] else []
-    else []
+    if h : pos < inp.size then (if clsMatch neg items inp[pos] then [pos + 1] else []) else []
   | n+1, .seq a b, pos => dedupNat ((ends inp n a pos).flatMap fun p => ends inp n b p)
   | n+1, .alt a b, pos => dedupNat (ends inp n a pos ++ ends inp n b pos)
   | n+1, .opt a, pos => dedupNat (pos :: ends inp n a pos)
